@@ -80,6 +80,26 @@ def mechanism(recheck, coords):
     return ''
 
 
+KEPT = []       # (routine, array a public call of the workload returned, snapshot taken on return)
+
+
+def keep(fn, *arrays):
+    for got in arrays:
+        if isinstance(got, np.ndarray) and got.ndim >= 1:
+            KEPT.append((fn, got, got.copy()))
+    if len(KEPT) > 3000:
+        check_kept()
+
+
+def check_kept():
+    """Class A: an array returned earlier must not have been changed by the calls made since (a result that is a view of a shared
+    work array no longer is the derivative it was compared with)."""
+    for fn, got, snap in KEPT:
+        CTX.require('alias.result-stable', np.array_equal(got, snap, equal_nan=True), f'C09/{fn}/result-changed-by-later-call',
+                    f'{fn}: an array returned earlier was modified by a later call', {'fn': fn, 'shape': list(got.shape), 'class': f'{fn}:result-stability'})
+    KEPT.clear()
+
+
 def lowp(*arrs):
     """Single-precision class: a float32 array among the arguments or prysm configured with precision = 32."""
     return cfg32() or any(getattr(a, 'dtype', None) == np.float32 for a in arrs)
@@ -780,6 +800,7 @@ def slope_check(monitor, fn, evaluate, u, desc, key, deg, lenlabel):
     b0 = BLAME[0]
     with guard(fn, desc, lenlabel=lenlabel, jlabel='j>=len' if lenlabel == 'len1' else 'j=1'):
         z, zp = evaluate(u)
+        keep(fn, z, zp)
         with quiet():
             def sample(nodes):
                 U = nodes.reshape((-1,) + (1,) * u.ndim) + np.zeros(u.shape)
@@ -862,6 +883,7 @@ def polar_check(tag, fn, evaluate, r, t, rlo, rhi, Kr, Nt, desc, keybase, lenlab
     jl = 'j>=len' if lenlabel in ('list-len1', 'len1') else 'j=1'
     with guard(fn, desc, lenlabel=lenlabel, jlabel=jl):
         z, dr, dt = evaluate(r, t)
+        keep(fn, z, dr, dt)
         with quiet():
             def s_r(nodes):
                 R = nodes.reshape((-1,) + (1,) * r.ndim) + np.zeros(r.shape)
@@ -1202,7 +1224,8 @@ def history_clenshaw(ctx, variant):
     u = np.array([0.09375, 0.40625, 0.65625, 0.90625])
     t = np.array([0.5, 1.75, 3.0, 5.5])
     x32, u32 = x[1:3].astype(np.float32), u[1:3].astype(np.float32)
-    lens = [3, 6, 19, 42, 18, 4, 41, 1, 2] if variant != 'f64-high-then-low' else [42, 19, 41, 18, 6, 3, 1, 4, 2]
+    # lengths come back with new coefficients (same work-array shapes, different content)
+    lens = [3, 6, 19, 42, 18, 4, 41, 1, 2, 6, 19, 3] if variant != 'f64-high-then-low' else [42, 19, 41, 18, 6, 3, 1, 4, 2, 19, 6, 42]
     HISTORY[0] = variant
     try:
         clear_caches()
@@ -1220,19 +1243,19 @@ def history_clenshaw(ctx, variant):
                     desc = {'fn': 'jacobi_sum_clenshaw_der', 'len': L, 'j': j, 'alpha': al, 'beta': be, 'step': step, 'variant': variant, 'class': f'jacobi_sum_clenshaw_der:history:{variant}'}
                     ctx.case(desc)
                     with guard('jacobi_sum_clenshaw_der', desc, lenlabel=lenclass(L), jlabel=jclass(j, L)):
-                        jacobi_sum_clenshaw_der(c, al, be, x, j=j)
+                        keep('jacobi_sum_clenshaw_der', jacobi_sum_clenshaw_der(c, al, be, x, j=j))
             for j in (1, 2):
                 desc = {'fn': 'clenshaw_qbfs_der', 'len': L, 'j': j, 'step': step, 'variant': variant, 'class': f'clenshaw_qbfs_der:history:{variant}'}
                 ctx.case(desc)
                 with guard('clenshaw_qbfs_der', desc, lenlabel=lenclass(L), jlabel=jclass(j, L)):
-                    clenshaw_qbfs_der(c, u * u, j=j)
-                for m in (1, 2, 3):
-                    if L > 30 and m == 3:
+                    keep('clenshaw_qbfs_der', clenshaw_qbfs_der(c, u * u, j=j))
+                for m in (1, 2, 3, 4, 6):          # m > 3: two orders of the general branch of abc_q2d_clenshaw alternate
+                    if L > 30 and m in (3, 6):
                         continue
                     desc = {'fn': 'clenshaw_q2d_der', 'len': L, 'j': j, 'm': m, 'step': step, 'variant': variant, 'class': f'clenshaw_q2d_der:history:{variant}'}
                     ctx.case(desc)
                     with guard('clenshaw_q2d_der', desc, lenlabel=lenclass(L), jlabel=jclass(j, L)):
-                        clenshaw_q2d_der(c, m, u * u, j=j)
+                        keep('clenshaw_q2d_der', clenshaw_q2d_der(c, m, u * u, j=j))
             for which, fn in (('Qbfs', compute_z_zprime_Qbfs), ('Qcon', compute_z_zprime_Qcon)):
                 desc = {'fn': f'compute_z_zprime_{which}', 'len': L, 'step': step, 'variant': variant, 'class': f'compute_z_zprime_{which}:history:{variant}'}
                 ctx.case(desc)
@@ -1291,6 +1314,7 @@ def alias_coefs(ctx):
                 ctx.case(desc)
                 with guard(fn, desc, lenlabel=lenclass(L), jlabel='j>=len' if L <= 2 else '2<=j<len'):
                     out = thunk()
+                    keep(fn, *(out if isinstance(out, tuple) else (out,)))
                     if which in ('Qbfs', 'Qcon'):
                         ref, unc, refsup, fsup = explicit_slope(which, c0, u)
                         judge(f'compute_z_zprime_{which}.slope', out[1], ref, unc, f'C09/compute_z_zprime_{which}/slope/after-call-sharing-coefficients',
@@ -1564,6 +1588,7 @@ def run_hardening(ctx, counter):
     for fn in (alias_coefs, alias_x, layout_units, container_units, cfg32_units):
         if mine():
             fn(ctx)
+            check_kept()
     hp = ctx.pick(2, 4)
     for part in range(hp):
         if mine():
@@ -1588,6 +1613,7 @@ def run(ctx):
         run_surfaces(ctx, counter)
         run_q2d_and_der(ctx, counter)
         run_normals(ctx, counter)
+        check_kept()
         ctx.note('orders', f'1-D families: every order 0..{ctx.pick(12, 80)} (+ 18, 19, 41, 60 in the quick tier); Zernike: every (n, m) with n <= {ctx.pick(12, 50)}; '
                            f'Clenshaw sums: lengths 1..{ctx.pick(12, 50)} (+ 19, 41, 42 in the quick tier), j=1..{ctx.pick(4, 6)}')
     finally:
